@@ -236,8 +236,19 @@ def summary_line(em, sd, rate=1.0):
         fmt_by(sd[eca.INIT_DETECT_BY]))
 
 
+def ceil_days(x):
+    """the least whole number of days that is not less than `x` (exact: delays are dyadic fractions)"""
+    import math
+    from fractions import Fraction
+
+    return int(math.ceil(Fraction(x)))
+
+
 def case_line(case):
     (start, nrd, delay, repairable, intermittent, adur, idur, n, events) = case
+    # the model works on whole days: a fractional repair delay enters as its ceiling (C04_fractional_delay:
+    # an integer day counter reaches delay + reporting delay exactly when it reaches ceil(delay) + reporting delay)
+    delay = ceil_days(delay)
     evs = "[" + ",".join("[" + ",".join(str(x) for x in e) + "]" for e in events) + "]"
     return "case %d %d %d %d %d %d %d %d %s" % (
         start, nrd, delay, int(repairable), int(intermittent), adur, idur, n, evs)
@@ -436,14 +447,16 @@ def run_get_rep_delay(kind, values, seed, column="dcol"):
     try:
         try:
             v = src._get_rep_delay(df)
-            out["value"] = int(v)
+            out["value"] = int(v) if float(v) == int(v) else float(v)
             if rec:
                 out["index"], out["n"] = rec[-1][0], rec[-1][1]
-                out["index_value"] = int(list(values)[rec[-1][0]])
+                iv = list(values)[rec[-1][0]]
+                out["index_value"] = int(iv) if float(iv) == int(iv) else float(iv)
             # the delay handed to a freshly created emission (same generator state -> same draw)
             np.random.seed(seed)
             em = src._create_emission(0, SIM_START, SIM_START, {"r": _StubRates()}, df)
-            out["emission_delay"] = int(em._repair_delay)
+            ed = em._repair_delay
+            out["emission_delay"] = int(ed) if float(ed) == int(ed) else float(ed)
         except SystemExit:
             out["exited"] = True
         except ValueError as e:
